@@ -373,6 +373,26 @@ def consensusOrder (sd : SD) (minFreq : Q) : List Nat :=
   let cands := (sd.counts.map fun kc => (sd.freq kc.1, kc.1)).filter fun p => Q.le minFreq p.1
   (cands.foldr insDesc []).map (·.2)
 
+/-! ## per-split summaries put on a summary tree -/
+
+/-- exact sum of a list of lengths (un-normalised, so that it does not depend on the order of the summands) -/
+def qsumF : List Frac → Q
+  | [] => Q.zero
+  | f :: r => (Q.ofFrac f).add (qsumF r)
+
+/-- `split_edge_length_summaries[s]['mean']`: mean of the edge lengths collected for split `s` (`none`: no value) -/
+def SD.meanLen (sd : SD) (s : Nat) : Option Q :=
+  let l := getL s sd.lens
+  if l.isEmpty then none else some ((qsumF l).div (Q.ofNat l.length))
+
+/-- `split_node_age_summaries[s]['mean']`: mean of the node ages collected for split `s` -/
+def SD.meanAge (sd : SD) (s : Nat) : Option Q :=
+  let l := (getL s sd.ages).filterMap id
+  if l.isEmpty then none else some ((qsumF l).div (Q.ofNat l.length))
+
+/-- number of values behind each of the two summaries of split `s` (what `range`, `median`, `sd` are computed from) -/
+def SD.summarySizes (sd : SD) (s : Nat) : Nat × Nat := ((getL s sd.lens).length, ((getL s sd.ages).filterMap id).length)
+
 /-! ## SumTrees: workers and collation, at the level of arriving results -/
 
 /-- the files a worker ends up reading: those the schedule gives it, in queue order -/
